@@ -11,7 +11,7 @@ import os
 import shutil
 import sys
 import tempfile
-from typing import Any, List
+from typing import Any, Dict, List
 
 MODULE = "c15mod"
 
@@ -67,14 +67,23 @@ def pair(a):
 def kind(*a):
     return "-".join(type(x).__name__ for x in a)
 
-FUNCTIONS = [add, cat, tup, first, word, boom, gsum, inc, pair, kind]
+def dsum(d: dict):
+    # the annotation makes apply_parsing_links hand a group / class Namespace over as a dict (as_dict());
+    # anything else is answered with -1, so that a missing conversion shows in the TARGET and not as a rejected parse
+    if type(d) is not dict:
+        return -1
+    vs = list(d.values())
+    _ints(vs)
+    return sum(vs)
+
+FUNCTIONS = [add, cat, tup, first, word, boom, gsum, inc, pair, kind, dsum]
 '''
 
-TYPES_SRC = {"int": "int", "str": "str", "list": "List[int]", "any": "Any"}
+TYPES_SRC = {"int": "int", "str": "str", "list": "List[int]", "any": "Any", "dict": "Dict[str, int]"}
 
 
 def write_module(d, classes):
-    lines = ["from typing import Any, List, Optional", ""]
+    lines = ["from typing import Any, Dict, List, Optional", ""]
     for name, params in classes.items():
         base = "" if name == "Base" else "(Base)"
         sig = ["self"]
@@ -152,7 +161,7 @@ def main():
             return orig(parser, cfg)
 
         la.ActionLink.apply_parsing_links = staticmethod(hooked)
-        tys = {"int": int, "str": str, "list": List[int], "any": Any}
+        tys = {"int": int, "str": str, "list": List[int], "any": Any, "dict": Dict[str, int]}
 
         def populate(p, decls, links, build):
             p.add_argument("--cfg", action="config")
@@ -313,7 +322,7 @@ def main():
                         text = None
                         obs["dump_error"] = type(ex).__name__ + ": " + str(ex)[:300]
                     if text is not None:
-                        r2 = attempt(lambda: p.parse_args(["--cfg", text]))
+                        r2 = attempt(lambda: p.parse_args(["--cfg", text], with_meta=False))
                         obs["reparse"] = ["ok", canon_cfg(r2[1], subs)] if r2[0] == "ok" else r2
                     observe_save(p, cfg, outdir, obs)
                 else:
@@ -334,6 +343,46 @@ def main():
                 return ["linked" if linked else "rejected", msg[:300]]
             except Exception as ex:
                 return ["crash", type(ex).__name__ + ": " + str(ex)[:300]]
+
+        def give_targets(case, build):
+            """the same input with a value GIVEN for every init_arg that is the target of an ACCEPTED link, in every class
+            spec whose class takes it;
+            None if that changes nothing. (The target is not required from the user: an input rejected without the
+            values must not be accepted with them when every link is applied and overwrites them anyway.)"""
+            import copy as _copy
+            classes = payload["classes"]
+            want = {}
+            for l, verdict in zip(case["links"], build):
+                if verdict == 0 and ".init_args." in l["tgt"]:
+                    dest, par = l["tgt"].split(".init_args.", 1)
+                    want.setdefault(dest, []).append(par)
+            if not want:
+                return None
+            changed = [False]
+
+            def fill(v, pars):
+                if isinstance(v, str) and v.startswith(MODULE + "."):
+                    v = {"class_path": v, "init_args": {}}
+                if isinstance(v, list):
+                    return [fill(x, pars) for x in v]
+                if isinstance(v, dict) and "class_path" in v:
+                    v = _copy.deepcopy(v)
+                    params = {pn: pt for pn, pt, _ in classes.get(v["class_path"].split(".")[-1], [])}
+                    ia = v.setdefault("init_args", {})
+                    for par in pars:
+                        if par in params and par not in ia:
+                            ia[par] = [] if params[par] == "list" else 1
+                            changed[0] = True
+                return v
+
+            def fill_map(m):
+                return {k: (fill(v, want[k]) if k in want else v) for k, v in m.items()}
+
+            x = _copy.deepcopy({k: case[k] for k in ("mode", "env", "argv", "obj")})
+            x["obj"] = fill_map(x["obj"])
+            x["argv"] = [([it[0], it[1], fill(it[2], want[it[1]])] + it[3:] if it[0] == "opt" and it[1] in want
+                          else ["cfg", fill_map(it[1])] if it[0] == "cfg" else it) for it in x["argv"]]
+            return x if changed[0] else None
 
         def one(case):
             if case.get("sub"):
@@ -384,7 +433,7 @@ def main():
                         text = None
                         obs["dump_error"] = type(ex).__name__ + ": " + str(ex)[:300]
                     if text is not None:
-                        r2 = attempt(lambda: p.parse_args(["--cfg", text]))
+                        r2 = attempt(lambda: p.parse_args(["--cfg", text], with_meta=False))
                         obs["reparse"] = ["ok", canon_cfg(r2[1])] if r2[0] == "ok" else r2
                     observe_save(p, cfg, outdir, obs)
                     # the caller goes on working with the configuration it got: lists found at link targets are edited
@@ -393,6 +442,14 @@ def main():
                         edit_lists(cfg, l["tgt"])
                 else:
                     obs["parse"] = r
+                    xg = give_targets(case, obs["build"]) if r[0] == "rejected" and not case["full"] else None
+                    if xg is not None:
+                        if xg["mode"] == "object":
+                            rg = attempt(lambda: p.parse_object(xg["obj"]))
+                        else:
+                            argvg = render_items(xg["argv"], case["decls"], indir)
+                            rg = attempt(lambda: p.parse_args(argvg))
+                        obs["given"] = ["ok", canon_cfg(rg[1])] if rg[0] == "ok" else rg
                 if case.get("second") is not None:
                     x2 = case["second"]
                     for name in env_keys:
